@@ -27,6 +27,8 @@ def obligations(tier):
         Ob('E.local', 'E', 'local transfers under transient/persistent OSErrors at every point: exact bytes or bounded error, rewound payload, no leftovers',
            '5 ops x 7 points x 0..6 faults x 4 sizes x raw/wrapped = 1960', [L + 'upload', L + 'upload_stream', L + 'download', L + 'download_stream'],
            module=H, func='e_local_faults', timeout=900, shards=4),
+        Ob('E.pod', 'E', 'B2: the first 1..3 upload URLs name pods that stop answering after 0..2 body pieces, b2_get_upload_url keeps handing out healthy ones: upload / upload_stream succeed with the exact bytes, payload re-read from its start',
+           '2 ops x 4 sizes x 3 dead-pod counts x 3 positions x 2 bucket spellings = 144', ['replicat.backends.b2:B2.upload', 'replicat.backends.b2:B2.upload_stream', 'replicat.backends.b2:B2._get_upload_url_token'], module=H, func='e_b2_pod', timeout=600),
         Ob('E.list', 'E', 'local listing under directory-scan faults: complete or an error, never silently incomplete', '10 scan positions x 3 fault counts x 3 prefixes = 90',
            [L + 'list_files', 'replicat.utils.fs:iterative_scandir'], module=H, func='e_local_list_faults', timeout=300),
         Ob('E.remote', 'E', 'S3-compatible and B2 adapters against fake services: 503/500/429/connection failure/dropped download/expired token x position x 0,1,2,3,5,never-ending consecutive faults: exact bytes, rewound payload, complete listings, bounded error',
